@@ -47,8 +47,10 @@ CR == "x0D"
 U2 == <<"xC3", "xA9">>                       \* the valid UTF-8 two byte sequence (U+00E9)
 Max2(a, b) == IF a >= b THEN a ELSE b
 
-RECURSIVE Cat(_)
-Cat(ss) == IF ss = <<>> THEN <<>> ELSE Head(ss) \o Cat(Tail(ss))
+\* concatenation of a sequence of strings (divide and conquer: the recursion depth stays logarithmic)
+RECURSIVE CatR(_, _, _)
+CatR(ss, a, b) == IF a > b THEN <<>> ELSE IF a = b THEN ss[a] ELSE CatR(ss, a, (a + b) \div 2) \o CatR(ss, ((a + b) \div 2) + 1, b)
+Cat(ss) == CatR(ss, 1, Len(ss))
 
 RECURSIVE Digits(_)
 Digits(n) == IF n < 10 THEN <<S("0123456789")[n + 1]>> ELSE Digits(n \div 10) \o <<S("0123456789")[(n % 10) + 1]>>
@@ -82,7 +84,6 @@ Primary(f) == f.locs[Len(f.locs)]
 \*    The VALUES put in for the fields are not scanned again.
 \* ------------------------------------------------------------------------
 Fields == {"file", "line", "column", "callstack", "severity", "id", "message", "cwe", "code", "remark"}
-LocFields == {"file", "line", "column", "info", "code"}
 
 Spaces(n) == [i \in 1..n |-> " "]
 RECURSIVE RStrip(_)
@@ -171,24 +172,20 @@ Oct(t) == IF t \in DOMAIN OctOf THEN OctOf[t] ELSE S("\\???")
 Replace(s) == Cat([i \in 1..Len(s) |-> IF Len(s[i]) = 1 THEN <<s[i]>> ELSE Oct(s[i])])
 \* valid UTF-8 may be kept or replaced (the encoding of the document is UTF-8; "there is no utf-8 support around"): both
 \* spellings are accepted by normalising a kept pair
-RECURSIVE NormU2(_)
-NormU2(s) == IF s = <<>> THEN <<>>
-             ELSE IF Len(s) >= 2 /\ SubSeq(s, 1, 2) = U2 THEN S("\\303") \o S("\\251") \o NormU2(SubSeq(s, 3, Len(s)))
-             ELSE <<s[1]>> \o NormU2(Tail(s))
+NormU2(s) == Cat([i \in 1..Len(s) |-> IF s[i] = "xC3" /\ i < Len(s) /\ s[i + 1] = "xA9" THEN S("\\303")
+                                      ELSE IF s[i] = "xA9" /\ i > 1 /\ s[i - 1] = "xC3" THEN S("\\251") ELSE <<s[i]>>])
 
 \* the escaping a well-formed double-quoted attribute value needs: no raw < or ", every & starts a reference; and the
 \* references resolve to the value (the arbiter delivers value; this pins the class-level escaping in the specification)
 Entities == <<[e |-> S("&lt;"), c |-> "<"], [e |-> S("&gt;"), c |-> ">"], [e |-> S("&amp;"), c |-> "&"],
               [e |-> S("&quot;"), c |-> "\""], [e |-> S("&apos;"), c |-> "'"]>>
-RECURSIVE Unescape(_)
-Unescape(r) ==
-  IF r = <<>> THEN <<>>
-  ELSE IF r[1] = "&"
-       THEN IF \E i \in 1..Len(Entities) : IsPrefix(Entities[i].e, r)
-            THEN LET en == Entities[CHOOSE i \in 1..Len(Entities) : IsPrefix(Entities[i].e, r)]
-                 IN <<en.c>> \o Unescape(SubSeq(r, Len(en.e) + 1, Len(r)))
-            ELSE <<"?bad-reference?">>
-       ELSE <<r[1]>> \o Unescape(Tail(r))
+EntityAt(r, i) == IF r[i] = "&" /\ \E k \in 1..Len(Entities) : IsPrefix(Entities[k].e, SubSeq(r, i, Len(r)))
+                  THEN CHOOSE k \in 1..Len(Entities) : IsPrefix(Entities[k].e, SubSeq(r, i, Len(r))) ELSE 0
+\* (an entity contains no further &, so "inside an entity" is decided by looking back at most 5 tokens)
+Unescape(r) == Cat([i \in 1..Len(r) |->
+                     IF r[i] = "&" THEN (IF EntityAt(r, i) # 0 THEN <<Entities[EntityAt(r, i)].c>> ELSE <<"?bad-reference?">>)
+                     ELSE IF \E j \in (IF i > 5 THEN i - 5 ELSE 1)..(i - 1) : r[j] = "&" /\ EntityAt(r, j) # 0 /\ j + Len(Entities[EntityAt(r, j)].e) > i /\ \A m \in (j + 1)..(i - 1) : r[m] # "&"
+                          THEN <<>> ELSE <<r[i]>>])
 \* attribute-value normalisation of XML 1.0: a raw tab / newline / cr in the document is delivered as a blank
 WsNorm(s) == [i \in 1..Len(s) |-> IF s[i] \in {TAB, NL, CR} THEN " " ELSE s[i]]
 \* (numeric character references are left to the arbiter)
@@ -210,9 +207,6 @@ IsNat(s) == s # <<>> /\ \A i \in 1..Len(s) : s[i] \in DigitToks             \* x
 RECURSIVE StripZeros(_)
 StripZeros(s) == IF s # <<>> /\ s[1] = "0" THEN StripZeros(Tail(s)) ELSE s
 RngSeverities == {S("error"), S("information"), S("performance"), S("portability"), S("style"), S("warning")}
-TokName(t) == CASE t = " " -> "space" [] t = ":" -> "colon" [] t = "<" -> "lt" [] t = ">" -> "gt" [] t = "&" -> "amp" [] t = "\"" -> "quot" [] t = "'" -> "apos"
-                [] t = TAB -> "tab" [] t = NL -> "newline" [] t = CR -> "cr" [] OTHER -> t
-FirstBad(s, ok) == IF \E i \in 1..Len(s) : s[i] \notin ok THEN s[CHOOSE i \in 1..Len(s) : s[i] \notin ok /\ \A j \in 1..(i - 1) : s[j] \in ok] ELSE "-"
 
 RngLocation(l) ==
      {"rng:location:missing-attribute:" \o n : n \in {"file", "line", "column"} \ AttrNames(l)}
@@ -225,7 +219,7 @@ RngError(e) ==
      {"rng:error:missing-attribute:" \o n : n \in {"id", "msg", "severity", "verbose"} \ AttrNames(e)}
   \cup {"rng:error:attribute-not-allowed:" \o n : n \in AttrNames(e) \ {"id", "msg", "severity", "verbose", "inconclusive", "file0", "cwe", "hash"}}
   \cup (IF HasAttr(e, "id") /\ ~IsNCName(Attr(e, "id"))
-        THEN {"rng:error:id-not-an-NCName:" \o (IF Attr(e, "id") = <<>> THEN "empty" ELSE TokName(FirstBad(Attr(e, "id"), Letters \cup DigitToks \cup {".", "-", "_"})))} ELSE {})
+        THEN {"rng:error:id-not-an-NCName"} ELSE {})
   \cup (IF HasAttr(e, "severity") /\ Attr(e, "severity") \notin RngSeverities THEN {"rng:error:severity-not-in-enumeration"} ELSE {})
   \cup (IF HasAttr(e, "inconclusive") /\ Attr(e, "inconclusive") \notin {S("true"), S("false"), S("0"), <<"1">>} THEN {"rng:error:inconclusive-not-boolean"} ELSE {})
   \cup (IF HasAttr(e, "cwe") /\ ~(IsNat(Attr(e, "cwe")) /\ StripZeros(Attr(e, "cwe")) # <<>>) THEN {"rng:error:cwe-not-a-positive-integer"} ELSE {})
@@ -306,7 +300,8 @@ Triples(A) == {a \o b \o c : a \in A, b \in A, c \in A}
 MsgOK(m) == m # <<>> /\ m[Len(m)] # NL           \* "none of the error messages should end into it"
 
 ErrIds == <<S("x"), S("a.b"), S("a_b"), S("A-1"), S("1a"), S("x") \o U2, S("a b"), S("a:b"), S("a<b"), S("a&b"), S("a\"b"), S("a'b"),
-            <<"a", TAB, "b">>, <<"a", "x01">>, <<"a", "xE9">>, <<"a", "x7F">>>>
+            <<"a", TAB, "b">>, <<"a", "x7F">>, S("{line}"), S("a b") \o <<">">> >>
+ErrIdsBin == <<<<"a", "x01">>, <<"a", "xE9">>, <<"xE9", "x01">>>>
 Infos == <<<<>>, S("info one"), S("i<&>\"'"), <<"i", TAB, "xE9">>, S("{line}"), S("info one") \o U2>>
 BenignMsgs == <<S("plain text"), S("short") \o <<NL>> \o S("verbose text"), S("second message")>>
 BenignFiles == <<S("f.c"), S("g h.c"), S("sub/k.c")>>                   \* f.c is the analysed file (it exists)
@@ -339,8 +334,13 @@ Walk(first, rest, q) == IF q <= Len(first) THEN first[q] ELSE IF rest = <<>> THE
 
 MsgFirst == IF Mode = "gen" THEN SetToSeq({m \in MsgAtoms : MsgOK(m)}) ELSE <<>>
 MsgRest  == IF Mode = "gen" THEN SetToSeq({m \in Pairs(MsgAtoms) \cup (IF Deep THEN Triples(MsgAtoms) ELSE {}) : MsgOK(m)}) ELSE <<>>
-FileFirst == IF Mode = "gen" THEN SetToSeq({a \o S(".c") : a \in FileAtoms}) ELSE <<>>
-FileRest  == IF Mode = "gen" THEN SetToSeq({a \o S(".c") : a \in Pairs(FileAtoms) \cup (IF Deep THEN Triples(FileAtoms) ELSE {})}) ELSE <<>>
+\* file names with a raw control character / a byte that is not UTF-8 are a stratum of their own ("filebin"): such a
+\* name can make a whole document unreadable for the arbiter, which would hide the other findings of the case
+Bin(s) == Has(s, {"x01", "xE9"})
+FileFirst == IF Mode = "gen" THEN SetToSeq({a \o S(".c") : a \in {x \in FileAtoms : ~Bin(x)}}) ELSE <<>>
+FileRest  == IF Mode = "gen" THEN SetToSeq({a \o S(".c") : a \in {x \in Pairs(FileAtoms) \cup (IF Deep THEN Triples(FileAtoms) ELSE {}) : ~Bin(x)}}) ELSE <<>>
+FileBinFirst == IF Mode = "gen" THEN SetToSeq({a \o S(".c") : a \in {x \in FileAtoms : Bin(x)}}) ELSE <<>>
+FileBinRest  == IF Mode = "gen" THEN SetToSeq({a \o S(".c") : a \in {x \in Pairs(FileAtoms) : Bin(x)}}) ELSE <<>>
 RealFileFirst == IF Mode = "gen" THEN SetToSeq({a \o S(".c") : a \in RealFileAtoms}) ELSE <<>>
 RealFileRest  == IF Mode = "gen" THEN SetToSeq({a \o S(".c") : a \in Pairs(RealFileAtoms)}) ELSE <<>>
 LitFirst == IF Mode = "gen" THEN SetToSeq(LitAtoms) ELSE <<>>
@@ -362,20 +362,22 @@ LineOf(file, n) == IF file = S("f.c") THEN Pick(<<1, 3, 0, 2>>, n) ELSE Pick(<<1
 ColOf(n) == Pick(<<5, 1, 0, 12>>, n)
 Loc1(file, n) == [file |-> file, line |-> LineOf(file, n), col |-> ColOf(n \div 4), info |-> <<>>]
 
-Dims == <<"msg", "file", "msg", "id", "shape", "msg", "file", "real">>
+Dims == <<"msg", "file", "id", "shape", "msg", "real", "msg", "filebin", "file", "shape", "msg", "idbin">>
 DimOf(c) == Pick(Dims, c - 1)
-KOf(dim) == CASE dim = "msg" -> 5 [] dim = "file" -> 2 [] dim = "id" -> 2 [] dim = "shape" -> 4 [] OTHER -> 0
+KOf(dim) == CASE dim = "msg" -> 10 [] dim = "file" -> 6 [] dim = "id" -> 4 [] dim = "shape" -> 6 [] dim = "filebin" -> 2 [] dim = "idbin" -> 1 [] OTHER -> 0
 \* number of the case among the cases of its dimension (1, 2, ...), for walking the pool of that dimension
 Ord(c) == Cardinality({d \in 1..c : DimOf(d) = DimOf(c)})
 
+\* the j-th result line of case c: the dimension of the case walks its pool, the other fields take harmless values (that
+\* still vary: severity, line, column, cwe, which of the three harmless files / messages)
 Line(c, j) ==
   LET dim == DimOf(c)
       q == (Ord(c) - 1) * KOf(dim) + j          \* running number of this finding within its dimension
       n == q + Seed * 7919
-      file == IF dim = "file" THEN Walk(FileFirst, FileRest, q) ELSE Pick(BenignFiles, n)
+      file == IF dim = "file" THEN Walk(FileFirst, FileRest, q) ELSE IF dim = "filebin" THEN Walk(FileBinFirst, FileBinRest, q) ELSE Pick(BenignFiles, n)
       shape == IF dim = "shape" THEN Pick(<<"none", "loc", "file", "loc">>, q) ELSE "file"
       nloc == IF shape = "loc" THEN 2 + ((q \div 4) % 2) ELSE IF shape = "file" THEN 1 ELSE 0
-  IN [errorId |-> IF dim = "id" THEN Pick(ErrIds, q - 1 + Seed) ELSE S("x") \o Digits(j),
+  IN [errorId |-> IF dim = "id" THEN Pick(ErrIds, q - 1 + Seed) ELSE IF dim = "idbin" THEN Pick(ErrIdsBin, q - 1 + Seed) ELSE S("x") \o Digits(j),
       sev |-> Pick(Sevs, n \div 2),
       msg |-> IF dim = "msg" THEN Walk(MsgFirst, MsgRest, q) ELSE Pick(BenignMsgs, n \div 3),
       shape |-> shape,
@@ -406,6 +408,7 @@ Dev(fmt, key, what) == [fmt |-> fmt, key |-> key, what |-> what]
 \* non-printable bytes already in their replacement spelling), located in the file of the case.
 RECURSIVE ParseNat(_)
 ParseNat(s) == IF s = <<>> THEN 0 ELSE ParseNat(SubSeq(s, 1, Len(s) - 1)) * 10 + ((CHOOSE i \in 1..10 : S("0123456789")[i] = s[Len(s)]) - 1)
+NoneTok == S("none")            \* (a severity outside the six is judged as "none": the table of S must know the word)
 SevName(tokens) == IF \E i \in 1..Len(Sevs) : S(Sevs[i]) = tokens THEN Sevs[CHOOSE i \in 1..Len(Sevs) : S(Sevs[i]) = tokens] ELSE "none"
 FromXml(e, file) ==
   LET d == XmlDecode(e) IN
@@ -428,21 +431,31 @@ Marked(f) == \E m \in FieldMarks : IsInfix(m, f.short) \/ IsInfix(m, f.verbose) 
                                    \/ \E i \in 1..Len(f.locs) : IsInfix(m, f.locs[i].info) \/ IsInfix(m, f.locs[i].file)
 
 \* ---- text
+HasField(t, n) == LET r == Resolve(t) IN (\E i \in 1..Len(r.parts) : r.parts[i] = F(n)) \/ (\E i \in 1..Len(r.loc) : r.loc[i] = F(n))
+HasCR(f) == Has(f.short, {CR}) \/ Has(f.verbose, {CR}) \/ Has(f.id, {CR}) \/ \E i \in 1..Len(f.locs) : Has(f.locs[i].info, {CR}) \/ Has(f.locs[i].file, {CR})
+\* A finding whose rendering is the empty text: the documentation does not say whether an empty line is shown; left open.
 TextDevs(o) ==
   LET out == N(o, o.text.out)
       fs == Ref(o)
       rend(f) == N(o, Text(o.case.tmpl, f, o.case.verbose, o.src)) \o N(o, <<NL>>)
+      nore(f) == rend([f EXCEPT !.remark = <<>>])
+      empty == N(o, <<NL>>)
       R == {rend(fs[i]) : i \in 1..Len(fs)}
   IN IF o.text.rc # 0 THEN {Dev("text", "text:exit-status", "cppcheck exit status of the text run")}
      ELSE IF IsReal(o) /\ ~o.xml.ok THEN {}                                  \* no reference: not judged
-     ELSE IF Seg(out, R) THEN {}
-     ELSE LET badf == {i \in 1..Len(fs) : CountSub(rend(fs[i]), out) # 1}
+     ELSE IF Seg(out, R) \/ Seg(out, R \ {empty}) THEN {}
+     ELSE LET badf == {i \in 1..Len(fs) : rend(fs[i]) # empty /\ CountSub(rend(fs[i]), out) # 1}
           IN IF badf = {} THEN {Dev("text", "text:output-is-not-the-sequence-of-the-renderings", "every rendering occurs once but there is other output")}
-             ELSE {Dev("text", IF Marked(fs[i]) THEN "text:field-marker-inside-a-value-is-substituted-again" ELSE "text:rendering-not-exactly-once",
+             ELSE {Dev("text",
+                       IF Marked(fs[i]) THEN "text:field-marker-inside-a-value-is-substituted-again"
+                       ELSE IF HasCR(fs[i]) /\ HasField(o.case.tmpl, "code") THEN "text:carriage-return-inside-a-value-changes-the-line-separator-of-code"
+                       ELSE IF fs[i].remark # <<>> /\ (nore(fs[i]) = empty \/ \E j \in 1..Len(fs) : j # i /\ nore(fs[j]) = nore(fs[i]))
+                            THEN "text:finding-that-differs-only-by-its-remark-is-filtered-as-duplicate"
+                       ELSE "text:rendering-not-exactly-once",
                        "finding " \o ToString(i)) : i \in badf}
 
 \* ---- XML
-BadXmlTok == {"x01", "xE9"}              \* a raw control character / a byte that is not UTF-8 makes the document ill-formed
+\* a raw control character / a byte that is not UTF-8 makes the document ill-formed: which field of the case carries one
 XmlBreak(o) ==
   IF IsReal(o) THEN (IF Has(o.case.proj.file, {"x01"}) THEN "control-character-in-file-name"
                      ELSE IF Has(o.case.proj.file, {"xE9"}) THEN "invalid-utf-8-in-file-name" ELSE "unknown")
@@ -530,8 +543,10 @@ RealDevs(o) ==
            ds == [i \in 1..Len(es) |-> XmlDecode(es[i])]
            ids == {ds[i].id : i \in 1..Len(ds)}
            file == o.case.proj.file
-       IN {Dev("xml", "real:expected-finding-missing:" \o x, "finding of the real project") :
-             x \in {y \in {"zerodiv", "incorrectStringBooleanError", "nullPointer", "terminateStrncpy", "unreadVariable", "uninitvar"} : S(y) \notin ids}}
+       IN {Dev("xml", "real:expected-finding-missing:" \o x.n, "finding of the real project") :
+             x \in {y \in {[n |-> "zerodiv", t |-> S("zerodiv")], [n |-> "incorrectStringBooleanError", t |-> S("incorrectStringBooleanError")],
+                            [n |-> "nullPointer", t |-> S("nullPointer")], [n |-> "terminateStrncpy", t |-> S("terminateStrncpy")],
+                            [n |-> "unreadVariable", t |-> S("unreadVariable")], [n |-> "uninitvar", t |-> S("uninitvar")]} : y.t \notin ids}}
           \cup UNION {{Dev("xml", IF ds[i].locs[k].file = WsNorm(file) THEN "xml:location-file:tab-newline-cr-not-preserved" ELSE "xml:location-file:differs", "finding " \o ToString(i)) :
                          k \in {m \in 1..Len(ds[i].locs) : ds[i].locs[m].file # file}} : i \in 1..Len(ds)}
           \cup UNION {IF ds[i].file0 = file THEN {} ELSE {Dev("xml", IF ds[i].file0 = WsNorm(file) THEN "xml:file0:tab-newline-cr-not-preserved" ELSE "xml:file0:differs", "finding " \o ToString(i))} : i \in 1..Len(ds)}
@@ -546,12 +561,12 @@ CrossDevs(o) ==
   IF ~(o.xml.rc = 0 /\ o.xml.ok /\ o.sarif.rc = 0 /\ o.sarif.ok) THEN {}
   ELSE LET es == ErrorElems(o.xml.tree)
            x == [i \in 1..Len(es) |-> LET d == XmlDecode(es[i]) IN
-                   [ruleId |-> d.id, level |-> SarifLevel(SevName(d.sev)), msg |-> d.msg,
+                   [ruleId |-> WsNorm(d.id), level |-> SarifLevel(SevName(d.sev)), msg |-> d.msg,
                     locs |-> Bag([k \in 1..Len(d.locs) |-> [file |-> WsNorm(d.locs[k].file),
                                                           line |-> IF IsNat(d.locs[k].line) /\ Len(d.locs[k].line) < 9 THEN Max2(ParseNat(d.locs[k].line), 1) ELSE 0,
                                                           col |-> IF IsNat(d.locs[k].col) /\ Len(d.locs[k].col) < 9 THEN Max2(ParseNat(d.locs[k].col), 1) ELSE 0]])]]
            s == [i \in 1..Len(o.sarif.doc.results) |-> LET r == o.sarif.doc.results[i] IN
-                   [ruleId |-> r.ruleId, level |-> r.level, msg |-> Replace(r.msg),
+                   [ruleId |-> WsNorm(r.ruleId), level |-> r.level, msg |-> Replace(r.msg),
                     locs |-> Bag([k \in 1..Len(r.locs) |-> [file |-> WsNorm(r.locs[k].uri), line |-> r.locs[k].line, col |-> r.locs[k].col]])]]
            xl == SelectSeq(x, LAMBDA r : DOMAIN r.locs # {})
        IN IF Bag(x) = Bag(s) THEN {}
@@ -592,8 +607,9 @@ Laws ==
 
 \* ------------------------------------------------------------------------
 ASSUME Mode = "gen" =>
+         /\ Laws
          /\ PrintT(<<"CASES", NCases, "MSGS", Len(MsgFirst) + Len(MsgRest), "FILES", Len(FileFirst) + Len(FileRest), "TEMPLATES", Len(TmplFirst) + Len(TmplRest),
-                    "LITERALS", Len(LitFirst) + Len(LitRest), "REALFILES", Len(RealFileFirst) + Len(RealFileRest)>>)
+                    "LITERALS", Len(LitFirst) + Len(LitRest), "REALFILES", Len(RealFileFirst) + Len(RealFileRest), "BINFILES", Len(FileBinFirst) + Len(FileBinRest)>>)
          /\ ndJsonSerialize(IOEnv.OUT, Cases)
 ASSUME Mode = "judge" =>
          /\ PrintT(<<"JUDGED", Len(Obs)>>)
